@@ -3,6 +3,7 @@
 //
 // stdin:  P <n>                                         new phase with n fresh threads (previous ones joined)
 //         M pool <pid> <fixed> <keepAll> <gran> <fixedBytes> <freeCb>   create a pool (main thread, before the phase's threads)
+//         <t> dchurn <pid> <slot> <size> <log2 align|0>   scalable_malloc/aligned_malloc + free on the DEFAULT pool (same thread; slot unused)
 //         M fail <pid> <k> <count>                      raw-alloc calls number k .. k+count-1 of that pool fail (k=0: none)
 //         M reset <pid> | M destroy <pid>
 //         <t> [!]pmalloc <pid> <slot> <size>            `!` = must succeed (recovery check)
@@ -44,7 +45,7 @@ struct Op {
     unsigned need;
     bool must;
 };
-enum { PMALLOC, PAMALLOC, PREALLOC, PAREALLOC, PFREE, PMSIZE };
+enum { PMALLOC, PAMALLOC, PREALLOC, PAREALLOC, PFREE, PMSIZE, DCHURN };
 struct MOp { int line; std::string what; long long pid, a, b, c, d, e; };
 
 struct Slot {
@@ -247,6 +248,13 @@ static void run_op(const Op &op) {
         if (!rml::pool_free(c.pool, s.p)) violation("free", op.line, "pool_free returned false");
         s.p = nullptr;
         break;
+    case DCHURN: {
+        // default-pool traffic on the same thread between pool operations: allocate + free (the freed block stays in the DEFAULT pool's
+        // per-thread caches); a user pool must never hand out memory that came from there
+        void *p = op.b ? scalable_aligned_malloc(op.a, (size_t)1 << op.b) : scalable_malloc(op.a);
+        if (p) { memset(p, 0x5a, op.a < 4096 ? op.a : 4096); if (op.b) scalable_aligned_free(p); else scalable_free(p); }
+        break;
+    }
     case PMSIZE:
         if (s.p && s.pid == op.pid) {
             size_t m = rml::pool_msize(c.pool, s.p);
@@ -300,7 +308,7 @@ int main() {
     std::vector<unsigned> cnt;
     char line[256];
     int ln = 0, maxslot = -1;
-    static const char *names[] = {"pmalloc", "pamalloc", "prealloc", "parealloc", "pfree", "pmsize"};
+    static const char *names[] = {"pmalloc", "pamalloc", "prealloc", "parealloc", "pfree", "pmsize", "dchurn"};
     while (fgets(line, sizeof line, stdin)) {
         ln++;
         char w0[32] = {0}, w1[32] = {0};
@@ -317,7 +325,7 @@ int main() {
         bool must = w1[0] == '!';
         const char *nm = must ? w1 + 1 : w1;
         int kind = -1;
-        for (int i = 0; i < 6; i++) if (!strcmp(nm, names[i])) kind = i;
+        for (int i = 0; i < 7; i++) if (!strcmp(nm, names[i])) kind = i;
         if (kind < 0 || n < 4 || v[0] < 0 || v[0] >= 8 || v[1] < 0 || v[1] > 1000000) { printf("bad-op line=%d\n", ln); return 2; }
         Op op{ln, atoi(w0), kind, (int)v[0], (int)v[1], (size_t)v[2], (size_t)v[3], 0, must};
         if (op.thread < 0 || op.thread >= phases.back().T) { printf("bad-op line=%d\n", ln); return 2; }
